@@ -11,7 +11,9 @@ oracle:  model-free — every project is compiled whole and separately in every 
          ways must behave alike under Go.Sem, the linked Cores alike under Sem, Go validity (Go.Check) must agree, and
          check_package / build_package must write the same interface bytes, and the exports of every built package read
          back from the .interface JSON text must equal what was written (Debug rendering of exports / to_genv() /
-         hir_interface, compact JSON, recomputed hash)
+         hir_interface, compact JSON, recomputed hash); check_package and build_package are compared on every package
+         of every project, rejected ones included: same stage and same diagnostics when both reject, and check may
+         accept what build rejects only when all of build's diagnostics come from match compilation
 """
 import collections, json, os, re, subprocess
 import vlib
@@ -382,6 +384,13 @@ def run(ctx):
         "only receives from another package (call result, let, closure parameter) x owner of the type imported by the user's file / only by a sibling file / reachable "
         "only through an import of an import x impl beside the type / beside the trait x user = Main / a library; nothing is expected of a project except that both "
         "pipelines agree (isolation itself is C16's business); c16-world: the first 60 (thorough 600) C16 worlds with intact directories and at least one placement",
+        "late-diagnostic catalogue (harness/src/c14.rs::late_diagnostic_projects): every diagnostic match compilation can raise from source text (integer-literal "
+        "match without a catch-all arm on each integer type, the literal nested in a variant payload / tuple / struct pattern, the match inside a closure / let in an "
+        "arm / generic fn / inherent method / trait impl; an inherent or generic inherent method used as a value or argument; the matched value or the method owned by "
+        "an imported package) + 3 accepted controls x entry file / sibling of it / library file / sibling library file; entry-point catalogue (entry_point_projects): "
+        "main in the entry file / a sibling file / only a library / only as an inherent method / only as an extern / nowhere, main with a parameter / result / type "
+        "parameter; check-vs-build: diagnostics are compared as sorted lists of message classes (type-variable numbers and paths normalised), the diagnostics "
+        "excused as 'match compilation' are the format strings next to Stage::other(\"compile\") in compile_match.rs, read on every run",
     ]
     tb = ["Lean 4 kernel", "axioms: " + ",".join(ctx.proof["axioms"] or ["none"]), "Sem / Go.Sem / Go.Check", "harness/src/c14.rs, c13.rs (project generator), dump.rs, godump.rs",
           "tools/props/c14.py"]
